@@ -5,6 +5,7 @@ on djs_reject and bspline.fit inside the call counts the refits actually perform
 Oracle: (1) permutation metamorphic; (2) non-positive weights flagged False and deletable; (3) maxiter=0 == dense weighted
 LS on the positively weighted points; (4) an independent rejection loop (dense lstsq on a Cox-de Boor design matrix).
 """
+import math
 import warnings
 import numpy as np
 from vlib.harness import Check, np_rng
@@ -13,7 +14,9 @@ from vlib.refs import bspline_ref as BR
 
 def ref_loop(x, y, iv, t, k, upper, lower, maxiter, band):
     """fit, reject beyond lower/upper sigma (cumulatively), refit, until nothing changes or maxiter+1 fits done.
-    Returns (fit at x, mask, number of fits, near) with near=True if any decision was within `band` of a limit."""
+    Returns (fit at x, mask, number of fits, near, cond, stat) with near=True if any decision was within `band` of a limit;
+    stat['margin'] is the smallest relative distance of any decision from its limit, stat['close'] the number of decisions taken
+    within 3 % of a limit (near-threshold elements)."""
     A = BR.basis_matrix(t, k, x, extrapolate=True)
     mask = iv > 0
     sq = np.sqrt(np.where(iv > 0, iv, 0.0))
@@ -22,37 +25,66 @@ def ref_loop(x, y, iv, t, k, upper, lower, maxiter, band):
     near = False
     fit = None
     cond = 1.0
+    stat = {'margin': np.inf, 'close': 0}
     while (not qdone) and it <= maxiter:
         c, rank, sv = BR.wls(A, y, np.where(mask, iv, 0.0))
         if rank < A.shape[1]:
-            return None, None, it, True, np.inf      # reference problem became ill-posed: not in the domain
+            return None, None, it, True, np.inf, stat      # reference problem became ill-posed: not in the domain
         cond = max(cond, float(sv[0] / sv[-1]))
         fit = A @ c
         r = (y - fit) * sq
         bad = (r < -lower) | (r > upper)
         scale = band * max(1.0, float(np.abs(r[mask]).max()) if mask.any() else 1.0)
         near |= bool(np.any(mask & ((np.abs(r + lower) < band * max(1, lower)) | (np.abs(r - upper) < band * max(1, upper)))))
+        if mask.any():
+            dist = np.minimum(np.abs(r + lower) / max(1, lower), np.abs(r - upper) / max(1, upper))[mask]
+            stat['margin'] = min(stat['margin'], float(dist.min()))
+            stat['close'] += int((dist < 3e-2).sum())
         new = mask & ~bad
         qdone = bool(np.all(new == mask))
         mask = new
         it += 1
-    return fit, mask, it, near, cond
+    return fit, mask, it, near, cond, stat
+
+
+def sample_variance(y):
+    """Unbiased sample variance (divisor n-1, IDL's variance()) of float64 values by exactly rounded sums (math.fsum): mean,
+    then the corrected two-pass formula.  Independent of ndarray.var() and of the size of the mean relative to the scatter."""
+    v = [float(t) for t in y]
+    n = len(v)
+    m = math.fsum(v) / n
+    d = [t - m for t in v]
+    return (math.fsum(t * t for t in d) - math.fsum(d) ** 2 / n) / (n - 1)
+
+
+def space_basis(edges, k, x):
+    """Some basis (end knots repeated) of the splines of order k on the breakpoints `edges`: a least-squares fit over the space
+    does not depend on which basis (which padding knots outside the range) is used."""
+    t = np.concatenate([[edges[0]] * (k - 1), edges, [edges[-1]] * (k - 1)])
+    return BR.basis_matrix(t, k, x, extrapolate=True)
 
 
 class C10(Check):
     ID = 'C10'
     RULE = ('smooth signal + Gaussian noise on 80-400 abscissae (random, clustered, with duplicates; sorted or not), order 2-5, '
             'breakpoints by bkspace/nbkpts/everyn with >= order+4 good points per interval, 0-6 injected outliers of 8-60 sigma, '
-            '0-10% zero and negative weights, contiguous zero-weight gaps several breakpoint intervals wide (class gap), limits 2-8 (also asymmetric), maxiter 0-10, invvar=None path, float32 input.  Each '
+            '0-10% zero and negative weights, contiguous zero-weight gaps several breakpoint intervals wide (class gap), limits 2-8 (also asymmetric), maxiter 0-10, invvar=None path, float32 input; class default_weights: invvar omitted on ydata whose mean is 1e2-1e10 times its standard deviation, on integer counts, on exactly constant data (zero sample variance), with limits / maxiter / order left to their defaults, and points planted at a limit times (1 +- 1e-5 ... 3e-2) after the first fit (default or given weights).  Each '
             'problem is run as given, under a random permutation, and with the non-positively weighted points deleted, and is '
             'compared with an independent dense rejection loop.  Non-trivial: >= 1 point rejected by a limit and a permutation '
             'applied; distinct by input hash.  Problems where any residual comes within 1e-6 (float32: 2e-3) of a limit in the '
             'reference loop are undecided.')
     ASSUMPTIONS = ['well-supported problems only (ill-posed fits are C09); x2 / 2-D fits excluded (deprecated by the code itself)',
                    'curves are compared at abscissae inside the returned knot range only',
-                   'the documented procedure is cumulative: a point rejected in one pass is not re-admitted (inmask = previous mask)']
+                   'the documented procedure is cumulative: a point rejected in one pass is not re-admitted (inmask = previous mask)',
+                   'invvar omitted: the documented weights are 1 / (sample variance of ydata, divisor n-1), computed here with exactly rounded '
+                   'sums; unit weights when that variance is exactly zero.  Exactly constant data whose mean is not representable (7.1) are '
+                   'outside the domain: no weights are defined for them and what ndarray.var() returns is rounding noise',
+                   'class default_weights: decisions closer to a limit than 100 eps cond^2 max|y| sqrt(invvar) are undecided']
     REQUIRED_COUNTERS = ('starved_fixed_points_checked', 'few_points_exactly_order_usable', 'one_sided_limit_exactly_zero', 'good_points_sorted_bad_points_out_of_order', 'canary_sequences', 'fixed_point_optimality_checked', 'fixed_point_mask_checked', 'breakpoint_dropped_cases', 'permutations_checked', 'refits_observed', 'reference_loops_agreeing', 'maxiter0_cases',
-                         'nonpositive_weight_points', 'outliers_flagged', 'deletion_checks', 'invvar_none_cases', 'float32_cases')
+                         'nonpositive_weight_points', 'outliers_flagged', 'deletion_checks', 'invvar_none_cases', 'float32_cases',
+                         'default_weights_mean_over_1e7_scatter_with_rejection', 'near_threshold_decisions_with_default_weights',
+                         'near_threshold_decisions', 'default_limits_omitted_decided', 'default_weights_zero_variance',
+                         'default_weights_float32_decided', 'default_weights_integer_ydata_decided')
     CASE_CPU_S = 120
 
     def setup(self):
@@ -80,7 +112,7 @@ class C10(Check):
     def budget(self, tier):
         k = 1 if tier == 'quick' else 100
         return {'random': 500 * k, 'strong_outliers': 150 * k, 'maxiter0': 100 * k, 'invvar_none': 60 * k, 'float32': 80 * k,
-                'gap': 150 * k, 'starved': 120 * k, 'few_points': 120 * k}
+                'gap': 150 * k, 'starved': 120 * k, 'few_points': 120 * k, 'default_weights': 240 * k}
 
     # ------------------------------------------------------------------ gen
     def gen(self, cls, rng, i):
@@ -131,6 +163,8 @@ class C10(Check):
             return {'kind': cls, 'x': x[p].tolist(), 'y': y[p].tolist(), 'iv': iv[p].tolist(), 'dtype': 'f8', 'nord': k,
                     'opt': opt, 'optval': val, 'upper': 5.0, 'lower': 5.0, 'maxiter': rng.choice([0, 1, 3, 10]),
                     'poly': pc.tolist(), 'ngood': ngood}
+        if cls == 'default_weights':
+            return self.gen_default_weights(rng, g)
         k = rng.randint(2, 5)
         n = rng.randint(80, 400)
         m = rng.randint(0, 2)
@@ -218,10 +252,149 @@ class C10(Check):
                 'outliers': sorted(int(j) for j in io), 'perm_seed': rng.getrandbits(32), 'sorted': rng.random() < 0.3,
                 'good_sorted': rng.random() < 0.3}
 
+    def gen_default_weights(self, rng, g):
+        """invvar omitted (weights = inverse sample variance of ydata) on the kinds of ydata for which that variance is delicate,
+        and decisions planted close to the limits, which is where a wrong weight shows:
+        offset   - a stable quantity measured to high relative precision: |mean| 1e2 ... 1e10 times the standard deviation of
+                   ydata, float64 (float32: 3 ... 300 times), clear outliers; limits, maxiter and order given or left to their defaults
+        ladder   - 2-10 points planted so that their residual after the first fit lies at a limit times (1 +- 1e-5 ... 3e-2), on both
+                   sides of it (default weights, or given weights); explicit breakpoints or nbkpts
+        counts   - integer ydata (photon counts) with a large mean
+        constant - exactly constant ydata whose sample variance is exactly zero (the documented fallback to unit weights),
+                   alone or with one or two spikes"""
+        mode = rng.choice(['offset'] * 9 + ['ladder'] * 7 + ['counts'] * 2 + ['constant'] * 2)
+        defaults = rng.random() < 0.35
+        k = 4 if defaults and rng.random() < 0.5 else rng.randint(2, 5)
+        dt, xdt = 'f8', 'f8'
+        iv = None
+        io = np.array([], dtype=int)
+        upper = float(rng.choice([5, 5, 4, 3, 6, round(rng.uniform(3, 7), 3)]))
+        lower = upper if rng.random() < 0.6 else float(rng.choice([5, 4, 3, 6, round(rng.uniform(3, 7), 3)]))
+        maxiter = rng.choice([0, 1, 2, 3, 10, 10, 20])
+        if defaults:
+            upper, lower, maxiter = 5.0, 5.0, 10
+        ratio = 0.0
+        if mode == 'ladder':
+            n = rng.randint(300, 500)
+            x = g.uniform(0, 10, n)
+            x[0], x[1] = 0.0, 10.0
+            nint = rng.randint(2, 10)
+            edges = np.linspace(0.0, 10.0, nint + 1)
+            noise = 10 ** rng.uniform(-3, 0)
+            amp = noise * 10 ** rng.uniform(-1, 1)
+            ratio = rng.choice([0.0, 10 ** rng.uniform(0, 4)])
+            y = rng.choice([-1, 1]) * noise * ratio + amp * np.polyval(g.normal(size=k), (x - 5) / 5) + g.normal(0, noise, n)
+            given = rng.random() < 0.35
+            w = np.full(n, 1.0 / noise ** 2) * 10 ** g.uniform(-0.3, 0.3, n) if given else None
+            lim = max(upper, lower)
+            nl = max(2, min(10, int(0.4 * n / lim ** 2))) if not given else rng.randint(4, 10)
+            inner = np.argsort(x)[n // 10: n - n // 10]
+            L = g.choice(inner, nl, replace=False)
+            side = g.choice([-1.0, 1.0], nl)
+            d = g.choice([-1.0, 1.0], nl) * 10 ** g.uniform(-5, -1.5, nl)
+            target = side * np.where(side > 0, upper, lower) * (1 + d)          # residual / sigma after the first fit
+            A = space_basis(edges, k, x)
+            sw = np.sqrt(w) if given else np.ones(n)
+            P = np.linalg.pinv(A * sw[:, None])
+            for it in range(200):
+                f = A @ (P @ (y * sw))
+                sigma = 1.0 / sw[L] if given else math.sqrt(sample_variance(y))
+                new = f[L] + target * sigma
+                delta = float(np.abs(new - y[L]).max())
+                y[L] = new
+                if delta <= 1e-13 * float(np.abs(y).max()):
+                    break
+            io = np.sort(L)
+            iv = w
+            opt = rng.choice(['bkpt', 'nbkpts'])
+            val = edges.tolist() if opt == 'bkpt' else nint + 1
+            if maxiter == 0:
+                maxiter = 1
+        elif mode == 'constant':
+            n = rng.randint(30, 400)
+            x = g.uniform(0, 10, n)
+            # n * c and every partial sum exactly representable: the sample variance is exactly zero however it is summed
+            if rng.random() < 0.3:
+                dt, xdt = 'f4', 'f4'
+            c = rng.choice([0.0, 1.0, 7.25, -3.5])
+            if dt == 'f8' and rng.random() < 0.5:
+                c = rng.randint(-2 ** 20, 2 ** 20) / 2.0 ** rng.randint(0, 10) * 2.0 ** rng.randint(-30, 30)
+            y = np.full(n, c)
+            nsp = rng.choice([0, 0, 1, 2])
+            if nsp:
+                io = np.sort(g.choice(np.argsort(x)[n // 10: n - n // 10], nsp, replace=False))
+                y[io] += g.choice([-1.0, 1.0], nsp) * (abs(c) + 1.0) * g.uniform(0.01, 3.0, nsp)
+            nint = rng.randint(1, max(1, n // (3 * (k + 4))))
+            while nint > 1 and np.histogram(np.delete(x, io), bins=np.linspace(x.min(), x.max(), nint + 1))[0].min() < k + 4:
+                nint -= 1
+            opt = rng.choice(['nbkpts', 'bkspace'])
+            val = nint + 1 if opt == 'nbkpts' else float((x.max() - x.min()) / nint) * 1.0000001
+        else:
+            n = rng.randint(150, 400)
+            if rng.random() < 0.6:
+                x = g.uniform(0, 10, n)
+            else:
+                x = np.concatenate([g.uniform(0, 10, n // 2), g.normal(5, 1.5, n - n // 2).clip(0, 10)])
+            if mode == 'counts':
+                level = 10 ** rng.uniform(2, 7)
+                yy = level * (1 + 0.03 * rng.uniform(0, 3) * np.polyval(g.normal(size=k), (x - 5) / 5).clip(-3, 3))
+                y = g.poisson(yy).astype('f8')
+                noise, amp = math.sqrt(level), 0.03 * level
+                dt = 'i8'
+            else:
+                noise = 10 ** rng.uniform(-4, 0)
+                if rng.random() < 0.15:
+                    dt, xdt = 'f4', 'f4'
+                    ratio = 10 ** rng.uniform(0.5, 2.5)
+                else:
+                    ratio = 10 ** rng.uniform(2, 10)
+                amp = noise * 10 ** rng.uniform(-1, 1.5)
+                if rng.random() < 0.7:
+                    sig = np.polyval(g.normal(size=k), (x - 5) / 5)
+                else:
+                    amp = min(amp, noise)             # a sine is not in the spline space: keep it below the noise
+                    sig = np.sin(x * rng.uniform(0.05, 0.2))
+                y = amp * sig + g.normal(0, noise, n)
+            nout = rng.randint(0, min(4, n // 60))
+            if nout:
+                io = np.sort(g.choice(np.argsort(x)[n // 10: n - n // 10], nout, replace=False))
+                bump = g.choice([-1, 1], nout) * (3 * amp + noise) * g.uniform(30, 300, nout)
+                y[io] += np.round(bump) if mode == 'counts' else bump
+            if mode == 'counts':
+                y = np.maximum(y, 0)
+                ratio = float(y.mean() / y.std())
+            else:
+                # `ratio` is |mean| / standard deviation of ydata as the caller hands it over (signal, noise and outliers)
+                y = y - y.mean() + rng.choice([-1, 1]) * float(y.std()) * ratio
+            keep = np.ones(n, dtype=bool)
+            keep[io] = False
+            nint = rng.randint(1, max(1, n // (3 * (k + 4))))
+            while nint > 1 and np.histogram(x[keep], bins=np.linspace(x.min(), x.max(), nint + 1))[0].min() < k + 4:
+                nint -= 1
+            opt = rng.choice(['nbkpts', 'bkspace', 'everyn', 'bkpt'])
+            if opt == 'nbkpts':
+                val = nint + 1
+            elif opt == 'bkspace':
+                val = float((x.max() - x.min()) / nint) * 1.0000001
+            elif opt == 'everyn':
+                val = min(max(n // nint, 2 * (k + 4)), n // 2)
+            else:
+                val = np.linspace(x.astype(xdt).min(), x.astype(xdt).max(), nint + 1).astype(xdt).astype('f8').tolist()
+        ylist = [int(v) for v in y] if dt == 'i8' else y.astype(dt).astype('f8').tolist()
+        return {'kind': 'default_weights', 'mode': mode, 'x': x.astype(xdt).astype('f8').tolist(), 'y': ylist,
+                'iv': None if iv is None else iv.tolist(), 'dtype': dt, 'xdtype': xdt, 'nord': k, 'opt': opt, 'optval': val,
+                'upper': upper, 'lower': lower, 'maxiter': int(maxiter), 'defaults': bool(defaults),
+                'omit_nord': bool(defaults and k == 4), 'ratio': float(ratio), 'outliers': [int(j) for j in io],
+                'perm_seed': rng.getrandbits(32), 'sorted': rng.random() < 0.3, 'good_sorted': False}
+
     # ------------------------------------------------------------------ run
     def _call(self, x, y, iv, case):
-        kw = {case['opt']: case['optval'], 'nord': case['nord'], 'upper': case['upper'], 'lower': case['lower'],
-              'maxiter': case['maxiter']}
+        kw = {case['opt']: np.array(case['optval'], dtype=x.dtype) if case['opt'] == 'bkpt' else case['optval']}
+        if not case.get('omit_nord'):
+            kw['nord'] = case['nord']
+        if not case.get('defaults'):
+            # 'defaults': the caller leaves upper, lower and maxiter (and possibly nord) to their documented defaults 5, 5, 10 (4)
+            kw.update(upper=case['upper'], lower=case['lower'], maxiter=case['maxiter'])
         with warnings.catch_warnings():
             warnings.simplefilter('ignore')
             with np.errstate(all='ignore'):
@@ -345,7 +518,8 @@ class C10(Check):
         if case['kind'] in ('starved', 'few_points'):
             return getattr(self, 'run_' + case['kind'])(case, out)
         dt = case['dtype']
-        x = np.array(case['x'], dtype=dt)
+        dw = case['kind'] == 'default_weights'
+        x = np.array(case['x'], dtype=case.get('xdtype', dt))
         y = np.array(case['y'], dtype=dt)
         iv = None if case['iv'] is None else np.array(case['iv'], dtype=dt)
         if case['sorted']:
@@ -387,7 +561,8 @@ class C10(Check):
         # effective weights as the documented procedure sees them
         xd, yd = x.astype('f8'), y.astype('f8')
         if iv is None:
-            var = float(np.var(yd) * n / (n - 1)) or 1.0
+            # documented default weights: the inverse of the sample variance of ydata (unit weights when that is zero)
+            var = sample_variance(yd) or 1.0
             ivd = np.full(n, 1.0 / var)
         else:
             ivd = iv.astype('f8')
@@ -402,10 +577,21 @@ class C10(Check):
         inside = (xd >= t[k - 1]) & (xd <= t[nk])
         ys = max(float(np.abs(yd).max()), 1e-300)
         # (4)/(3) reference loop
-        fit, rmask, rit, near, cond = ref_loop(xd, yd, ivd, t, k, case['upper'], case['lower'], case['maxiter'], band)
+        fit, rmask, rit, near, cond, stat = ref_loop(xd, yd, ivd, t, k, case['upper'], case['lower'], case['maxiter'], band)
         # the code solves the normal equations (error ~ cond(A sqrt(W))^2 * eps); tolerance derived from that conditioning
         eps = 6e-8 if f32 else 1.1e-16
+        craw = max(1e4 * eps, 100 * eps * cond ** 2)
         ctol = max(ctol, 100 * eps * cond ** 2)
+        band_eff = band
+        if dw:
+            # data with a large mean: the floor of 1e-7 of the largest |y| would be far above the scatter; the derived bound alone
+            # (observed on the unchanged code: at most 12 eps cond^2, i.e. 5e-15 of the largest |y|) with a floor of 1e4 eps
+            if not f32:
+                ctol = craw
+            # a curve error of that size moves a residual by craw * max|y| * sqrt(invvar) sigma: decisions closer than that to a
+            # limit are undecided (for the other classes max|y| * sqrt(invvar) is a few hundred and the fixed band covers it)
+            band_eff = max(band, craw * ys * math.sqrt(float(ivd[pos].max())))
+            near = near or not stat['margin'] >= band_eff
         out.info['cond'] = cond
         if near or fit is None or ctol > (3e-2 if f32 else 1e-4):
             out.undecide()
@@ -429,6 +615,8 @@ class C10(Check):
                 dev0 = float(np.abs(c.astype('f8') - A @ c0)[inside].max())
                 out.expect(dev0 <= ctol * ys, 'maxiter0', 'maxiter=0 curve is not the plain weighted fit (dev %.3g)' % dev0)
             # injected strong outliers end up False and do not influence the curve
+            if dw:
+                self._default_weights_clauses(out, case, m, c, rmask, stat, xd, yd, ivd, pos, t, k, inside, ctol, ys, band_eff)
             if case['kind'] == 'strong_outliers' and case['maxiter'] >= 3 and iv is not None:
                 o = np.array(case['outliers'], dtype=int)
                 if case['sorted']:
@@ -457,7 +645,7 @@ class C10(Check):
             out.expect(bool(np.array_equal(m2, m[p])), 'permutation-mask', 'mask of the permuted problem is not the permuted mask (%d differ)'
                        % int((m2 != m[p]).sum()))
             devp = float(np.abs(c2.astype('f8') - c.astype('f8')[p])[inside[p]].max())
-            out.expect(devp <= max(3e-3 if f32 else 1e-8, ctol / 10) * ys, 'permutation-curve', 'curve depends on the order of the data (dev %.3g)' % devp)
+            out.expect(devp <= (ctol if dw and not f32 else max(3e-3 if f32 else 1e-8, ctol / 10)) * ys, 'permutation-curve', 'curve depends on the order of the data (dev %.3g)' % devp)
             out.count('permutations_checked')
         # (2b) deleting the non-positively weighted points changes nothing
         if iv is not None and (~pos).any() and decided:
@@ -470,6 +658,44 @@ class C10(Check):
         out.nontrivial = decided and rejected_by_limit >= 1
         out.info.update(order=k, n=n, fits=nfits, rejected=rejected_by_limit, maxiter=case['maxiter'], opt=case['opt'])
 
+    def _default_weights_clauses(self, out, case, m, c, rmask, stat, xd, yd, ivd, pos, t, k, inside, ctol, ys, band_eff):
+        """Counters of the deciding branches of class default_weights, and the 'clear outliers' clause for invvar omitted."""
+        mode = case['mode']
+        n = xd.size
+        o = np.array(case['outliers'], dtype=int)
+        if case['sorted'] and o.size:
+            inv = np.empty(n, dtype=int)
+            inv[np.argsort(np.array(case['x'], dtype=case['xdtype']), kind='stable')] = np.arange(n)
+            o = inv[o]
+        rej = int((pos & ~rmask).sum())
+        out.count('default_weights_decided_' + mode)
+        out.count('default_limits_omitted_decided', bool(case['defaults']))
+        if case['iv'] is None:
+            out.count('default_weights_rejections', rej)
+            out.count('default_weights_mean_over_1e7_scatter_with_rejection', case['ratio'] >= 1e7 and rej >= 1)
+            out.count('default_weights_float32_decided', case['dtype'] == 'f4')
+            out.count('default_weights_integer_ydata_decided', case['dtype'] == 'i8')
+            out.count('default_weights_zero_variance', mode == 'constant' and not o.size)
+        if mode == 'ladder':
+            out.count('near_threshold_decisions', stat['close'])
+            out.count('near_threshold_decisions_with_default_weights', stat['close'] if case['iv'] is None else 0)
+        elif o.size and case['maxiter'] >= 1 and not bool(np.any(rmask[o])):
+            # clear outliers: the documented procedure, with the inverse sample variance as weights, rejects every one of them
+            out.expect(not bool(np.any(m[o])), 'outliers', '%d of %d clear outliers (%.1f ... %.1f sigma of the data, limits -%g/+%g) '
+                       'are flagged good' % (int(m[o].sum()), o.size, float(np.abs(yd[o] - np.median(yd)).min() * math.sqrt(ivd[0])),
+                                             float(np.abs(yd[o] - np.median(yd)).max() * math.sqrt(ivd[0])), case['lower'], case['upper']),
+                       idx=o[m[o]])
+            out.count('outliers_flagged', int((~m[o]).sum()))
+            clean = pos.copy()
+            clean[o] = False
+            if np.array_equal(m, clean):
+                A = BR.basis_matrix(t, k, xd, extrapolate=True)
+                cc, rank, sv = BR.wls(A, yd, np.where(clean, ivd, 0.0))
+                devc = float(np.abs(c.astype('f8') - A @ cc)[inside].max())
+                out.expect(devc <= ctol * ys, 'outliers', 'curve is affected by rejected outliers (dev from the clean fit %.3g, limit %.3g)'
+                           % (devc, ctol * ys))
+        out.info.update(mode=mode, ratio=case['ratio'], band=band_eff, margin=stat['margin'])
+
     def _fixed_point(self, out, case, s, m, c, x, y, iv):
         """The fit dropped breakpoints (data gap).  The intermediate knot sets are the code's own business, but the END
         state is decidable: weights clause; the returned curve must be the weighted LS optimum, over the breakpoints still
@@ -478,7 +704,7 @@ class C10(Check):
         xd, yd = x.astype('f8'), y.astype('f8')
         n = x.size
         if iv is None:
-            var = float(np.var(yd) * n / (n - 1)) or 1.0
+            var = sample_variance(yd) or 1.0
             ivd = np.full(n, 1.0 / var)
         else:
             ivd = iv.astype('f8')
